@@ -487,7 +487,11 @@ def main():
         json.dump(ev, open(tmp, "w"), indent=1, default=str)
         os.replace(tmp, os.path.join(VERIF, "evidence", pid + ".json"))
 
+    printed = set()
     for k, v in kf:
+        if k["key"] in printed:
+            continue
+        printed.add(k["key"])
         log("KNOWN-FINDING: property=%s %s [key=%s witness=%s]" % (pid, k["what"], k["key"], v["replay"]))
     for v in real:
         log("VIOLATION property=%s replay=%s" % (pid, v["replay"]))
